@@ -26,7 +26,7 @@ impl GC {
 
     #[inline]
     pub fn maybe_trace(&mut self, o: Object) {
-        if o.is_heap_allocated() {
+        if o.is_heap_allocated() && !self.positions.contains_key(&o.as_ptr()) {
             self.trace(o);
         }
     }
